@@ -1,6 +1,7 @@
 """Shared driver for the pass properties (C04, C05, C06, C09, C10): TLC enumerates programs with the
 AstEnum builder machine, the harness renders each as Jaqal text, runs the real parser and the real
 passes, projects inputs and outputs, and TLC (Conform_Pass) judges every recorded call."""
+import glob
 import json
 import os
 import random
@@ -162,6 +163,11 @@ def override_choices(prog, rng, pool, max_sets):
     return out + cands[:max_sets]
 
 
+def corpus_files():
+    root = os.path.join(os.path.dirname(os.environ.get('VERIF_REPO_SRC', '/repo/src').rstrip('/')), 'examples', 'jaqal')
+    return sorted(glob.glob(os.path.join(root, '**', '*.jaqal'), recursive=True))
+
+
 def run_property(prop, tier, configs, sites_fn, owned, nontrivial, rule, module='Conform_Pass', extra_jobs=None,
                  shard_size=3000, variants=(), extra_stage=None):
     """Generic driver: enumerate (TLC) -> render/parse/apply passes (real code) -> validate (TLC)."""
@@ -192,6 +198,18 @@ def run_property(prop, tier, configs, sites_fn, owned, nontrivial, rule, module=
                          if f['site'] != 'parse' else []})
     if extra_jobs:
         jobs += extra_jobs(rng)
+    # code -> spec on programs nobody generated for the purpose: every example file of the repository goes through the
+    # same calls and is judged by the same clauses (the model input is the projection of the parsed circuit)
+    ncorpus = 0
+    for path in corpus_files():
+        text = open(path).read()
+        o, _ = outcome(lambda: parse_prog(EMPTY_PROG, text))
+        if o['cls'] != 'ok':
+            continue
+        ncorpus += 1
+        jobs.append({'id': 'corpus/' + os.path.basename(path)[:-6], 'prog': dict(EMPTY_PROG), 'text': text,
+                     'sites': sites_fn(o['prog'], rng), 'prog_key': 'corpus/' + path})
+    rep.cov['repository_example_files'] = ncorpus
     rep.phase('tlc_enumeration')
     recs = [c for cs in core.pool_map(run_program, jobs, chunksize=100) for c in cs]
     rep.phase('replay')
